@@ -413,6 +413,8 @@ FX_COMMON = dict(unwind=10, cbmc_unwindset=CJ_UNWIND + ["cj_name_eq_nocase.0:12"
                  assumes=CJ_ASSUME + ["send_message: succeeds or fails per peer (arbitrary)", "fetch rules: fetch-all (rule matching itself is C16)"])
 unit("fx.notify", ["C01", "C11", "C06"], "units/u_fetch.c", entry="h_fx_notify", functions=["notify_fetchers", "notify_fetching_peer"],
      expect_tags=["C11.notify.every-subscriber-is-sent-the-event-once-whatever-happens-to-the-others", "C01.notify.event-carries-fetch-id-path-event-and-current-value"], **FX_COMMON)
+unit("fx.notify.allocfail", ["C15", "C01", "C06"], "units/u_fetch.c", entry="h_fx_notify", functions=["notify_fetchers", "notify_fetching_peer"], shared_tags=True,
+     expect_tags=["C15.notify.a-notification-that-is-sent-is-complete", "C15.notify.no-json-node-left-behind"], **dict(FX_COMMON, defines=FX_COMMON.get("defines", []) + ["FX_ALLOC_FAIL=1"]))
 unit("fx.subscribe", ["C01", "C15", "C06"], "units/u_fetch.c", entry="h_fx_subscribe", functions=["add_fetch_to_state"],
      expect_tags=["C01.subscribe.fetch-added-once-other-subscriptions-kept"], **FX_COMMON)
 unit("fx.addnotify", ["C01", "C08", "C06"], "units/u_fetch.c", entry="h_fx_addnotify", functions=["add_fetch_to_state_and_notify", "state_matches", "add_fetch_to_state", "notify_fetching_peer"],
